@@ -363,7 +363,9 @@ impl<M: Machine> World<M> {
                         slot.model.items[k].push(i);
                         if M::FAMILY != Family::Count {
                             let (t, sq) = M::tspace(recs[k][j], 0);
-                            slot.model.agg[k].push(t, sq);
+                            // a bare register has no sum of squares (and the extreme-magnitude
+                            // families would overflow it)
+                            slot.model.agg[k].push(t, if M::FAMILY == Family::Sum { 0.0 } else { sq });
                         }
                     }
                     self.mass += idx[k].len() as u64;
